@@ -370,3 +370,9 @@ def r02_8(ctx):
     from .layout_rules import collocation_content, kinds_table
     collocation_content(ctx)
     kinds_table(ctx, "DirectCollocation")
+
+
+@rule("R02.9", min_instances=30, desc="a stage created from a template keeps its dynamics and algebraic equations (clone table, shared with C12)")
+def r02_9(ctx):
+    from .c12 import r12_2
+    r12_2(ctx)
